@@ -167,17 +167,27 @@ def run(ctx, chk):
         if r is None:
             continue
         rows, rng, leaf = r
+        # width / signedness (the C04 source) restated for the coordinate fields
+        core, _ = strip_wrappers(term)
+        if k0 in SENT and term == ("none",) and leaf.startswith("inline:"):
+            # the absent branch of a coordinate decided in the message parser itself: the decision
+            # must have been taken on the transmitted field (the value branch is checked below
+            # when its own outcome comes up)
+            chk.ob(("sext", offw[0], offw[1]) in o.guard or ("bits", offw[0], offw[1]) in o.guard, "C10/signed/%s/%s/absent-without-guard" % (struct, p),
+                   "%s.%s [%s]: coordinate absent without a test of its %d-bit field" % (struct, p, cfg, offw[1]))
+        elif k0 in SENT and leaf.startswith("inline:"):
+            ss = sources(term)
+            chk.ob(bool(ss) and all(x == ("sext", offw[0], offw[1]) for x in ss), "C10/signed/%s/%s/%s" % (struct, p, sorted(set(ss))),
+                   "%s.%s [%s]: coordinate must be computed from the %d-bit two's complement field, uses %r" % (struct, p, cfg, offw[1], sorted(set(ss))))
+        elif k0 in SENT:
+            chk.ob(core[0] == "sext" and core[2] == offw[1], "C10/signed/%s/%s/%s" % (struct, p, core),
+                   "%s.%s [%s]: coordinate must be the %d-bit two's complement field, extracted %r" % (struct, p, cfg, offw[1], core),
+                   sample={"field": struct + "." + p, "source": list(core)})
         dk = (cfg, struct, p, leaf, rng.iv, tuple(sorted(o.tset().values())))
         if dk in done:
             continue
         done.add(dk)
         n += 1
-        # width / signedness (the C04 source) restated for the coordinate fields
-        core, _ = strip_wrappers(term)
-        if k0 in SENT:
-            chk.ob(core[0] == "sext" and core[2] == offw[1], "C10/signed/%s/%s/%s" % (struct, p, core),
-                   "%s.%s [%s]: coordinate must be the %d-bit two's complement field, extracted %r" % (struct, p, cfg, offw[1], core),
-                   sample={"field": struct + "." + p, "source": list(core)})
         want = SCALE[k0]
         for (sets, res, s2, rv) in rows:
             codes = sets[0]
